@@ -17,6 +17,7 @@ import (
 type LStmt struct {
 	Text     string  `json:"text"`            // simple: the statement text; compound: the condition
 	Compound bool    `json:"compound,omitempty"`
+	Bare     bool    `json:"bare,omitempty"` // compound: a bare block `{ … }` without condition
 	Body     []LStmt `json:"body,omitempty"`
 	Elifs    []LElif `json:"elifs,omitempty"` // else-if branches between Body and Else
 	Else     []LStmt `json:"else,omitempty"`
@@ -127,6 +128,11 @@ func (g *lintGen) stmt(nest int) LStmt {
 		s := LStmt{Compound: true, Text: rapid.SampledFrom(lintConds).Draw(g.t, "cond"), Lead: g.neutral()}
 		s.ID = g.nextID
 		s.Body = g.block(nest+1, 1, 3)
+		if rapid.IntRange(0, 7).Draw(g.t, "bare") == 0 {
+			s.Bare = true
+			s.EndLead = g.neutral()
+			return s
+		}
 		for i, n := 0, rapid.SampledFrom([]int{0, 0, 0, 1, 2}).Draw(g.t, "nelif"); i < n; i++ {
 			s.Elifs = append(s.Elifs, LElif{Kw: rapid.SampledFrom([]string{"else if", "elseif", "elsif"}).Draw(g.t, "elifkw"),
 				Cond: rapid.SampledFrom(lintConds).Draw(g.t, "elifcond"), Body: g.block(nest+1, 1, 2)})
@@ -215,7 +221,11 @@ func (p *LProgram) render() string {
 				s.Last = line - 1
 				continue
 			}
-			w(ind + "if (" + s.Text + ") {")
+			if s.Bare {
+				w(ind + "{")
+			} else {
+				w(ind + "if (" + s.Text + ") {")
+			}
 			stmts(s.Body, ind+"  ")
 			for k := range s.Elifs {
 				w(ind + "} " + s.Elifs[k].Kw + " (" + s.Elifs[k].Cond + ") {")
